@@ -22,6 +22,13 @@ func vC17InstallInert(vm *Context, mode int) {
 		_ = vm.RegCustomDice(`^\x00z(\d+)`, func(ctx *Context, groups []string, payload any) (*VMValue, string, error) {
 			return nil, "", errors.New("inert regex dice must never run")
 		})
+		// patterns that match only the empty text here: an empty match is no match
+		_ = vm.RegCustomDice(`(\x00y\d+)?`, func(ctx *Context, groups []string, payload any) (*VMValue, string, error) {
+			return nil, "", errors.New("inert regex dice must never run")
+		})
+		_ = vm.RegCustomDice(`\x00*`, func(ctx *Context, groups []string, payload any) (*VMValue, string, error) {
+			return nil, "", errors.New("inert regex dice must never run")
+		})
 		// never matches
 		_ = vm.RegCustomDiceParser(func(ctx *Context, s *CustomDiceStream) (*CustomDiceParseResult, error) {
 			return &CustomDiceParseResult{Matched: false}, nil
